@@ -8,6 +8,7 @@ import FianoModel.Fit.InjectLemmas
 import FianoModel.Fit.ReadLemmas
 import FianoModel.Fit.RecalcLemmas
 import FianoModel.Fit.Tie
+import FianoModel.Fit.CodeTie   -- T1 code-as-code tie (wp-t1x): audited as a tie module of this check
 
 namespace Fiano.Fit
 
